@@ -42,5 +42,5 @@ with open(os.path.join(out_root, "INDEX.md"), "w") as f:
     f.write("# Seeded property-breaking changes (from independent sub-agents) and which quick checks report them\n\n")
     f.write("| seed | site | change | caught by (quick tier) | demo fails | suite with change |\n|---|---|---|---|---|---|\n")
     for r in rows:
-        f.write("| " + " | ".join(str(x) for x in r) + " |\n")
+        f.write("| " + " | ".join(str(x).replace("|", "\\|") for x in r) + " |\n")
 print(len(rows), "seeds imported")
